@@ -7,5 +7,5 @@ for p in $PROPS; do
   s=$(date +%s)
   out=$(./check $p --tier $TIER 2>&1); rc=$?
   e=$(date +%s)
-  echo "== $p rc=$rc $((e-s))s"; echo "$out" | grep -E "VIOLATION|KNOWN-FINDING|obligations|Traceback|Error" | cut -c1-260
+  echo "== $p rc=$rc $((e-s))s"; printf "%s\n" "$out" | grep -E "VIOLATION|KNOWN-FINDING|obligations|Traceback|Error" | cut -c1-260
 done
